@@ -152,6 +152,16 @@ Theorem coap_result_keys : forall (K : Type) (ids : list K) items,
          nth_error (combine ids (classify_from 0 items)) i = Some (k, coap_classify (N.of_nat i) it).
 Proof. exact @coap_result_keys_l. Qed.
 
+(* repeated ids (no NoDup assumption anywhere): read back as the Python dict the exit code
+   builds, a key requested at several positions carries the outcome of its LAST position *)
+Theorem coap_result_last_wins : forall (K : Type) (eqb : K -> K -> bool) (ids : list K) items i k it,
+    items <> [] -> forallb coap_item_ok items = true -> length ids = length items ->
+    eqb k k = true -> nth_error ids i = Some k -> nth_error items i = Some it ->
+    (forall j k', i < j -> nth_error ids j = Some k' -> eqb k k' = false) ->
+    exists prs, rbind (coap_decode_all 0 (concat (map coap_render items))) (coap_exit_all ids) = Ok prs
+                /\ dict_get eqb k prs = Some (coap_classify (N.of_nat i) it).
+Proof. exact @coap_result_last_wins_l. Qed.
+
 (* write / subscribe / unsubscribe report exactly the failed items, under their own ids *)
 Theorem coap_result_errors : forall (K : Type) (ids : list K) items,
     items <> [] -> forallb coap_item_ok items = true -> length ids = length items ->
@@ -214,5 +224,6 @@ Print Assumptions coap_request_tids.
 Print Assumptions coap_batch_aligned.
 Print Assumptions coap_decode_total.
 Print Assumptions coap_result_keys.
+Print Assumptions coap_result_last_wins.
 Print Assumptions coap_result_errors.
 Print Assumptions coap_surplus_results_crash.
